@@ -23,7 +23,7 @@ from vlib import ToolError, log, WORK
 PUPPETS = ["scope5", "rec6"]
 CLASSES = {"out_of_scope_variable_listed", "sibling_block_variable_listed", "declared_later_listed",
            "in_scope_variable_missing", "shadowed_name_resolves_to_outer", "wrong_frame_value", "wrong_value",
-           "wrong_register", "query_failed"}
+           "wrong_register", "query_failed", "value_from_callers_frame_base"}
 STEP_CMDS = {"stepi", "step", "next", "finish"}
 QUICK = dict(builds=[("1.89", 0, True)], maxcmd=14, maxbps=2, ncands=4, nhist=7, mc="ScopeMC_q.cfg", session_e=0)
 THOROUGH = dict(builds=[(tc, o, True) for tc in ("1.89", "1.95", "nightly") for o in (0, 1)],
@@ -161,8 +161,17 @@ def gen_histories(s, cands, cfg, seed):
 # ------------------------------------------------------------------------------------------
 # the real debugger
 # ------------------------------------------------------------------------------------------
+_DRV = []
+
+
+def driver():
+    if not _DRV:
+        _DRV.append(vlib.cargo_build("c19"))       # remember the first answer (it honours VERIF_TARGET_DIR)
+    return _DRV[0]
+
+
 def run_session(exe, script, tag, timeout=240):
-    drv = vlib.cargo_build("c19")
+    drv = driver()
     d = WORK / "c19" / "runs"
     d.mkdir(parents=True, exist_ok=True)
     sp, op = d / f"{tag}.script.json", d / f"{tag}.out.ndjson"
@@ -215,7 +224,7 @@ def to_events(s, obs):
         for q in after.get("res") or []:
             vals, err = _pairs(q["got"])
             rs.append({"name": q["name"], "vals": [v for _, v in vals], "err": err})
-        raw = [[{"v": x["v"], "e": x["e"], "val": x["val"], "alt": x.get("alt") or []} for x in fr_] for fr_ in facts.get("raw") or []]
+        raw = [[{"v": x["v"], "e": x["e"], "val": x["val"], "alt": x.get("alt") or [], "up": x.get("up") or "unk"} for x in fr_] for fr_ in facts.get("raw") or []]
         evs.append({"cmd": "obs" if name == "frame" or ok or idx > 0 else "skip", "k": o["k"], "idx": idx, "fr": fr, "ok": good,
                     "chain": facts.get("chain") or [], "locals": loc, "lerr": lerr, "args": arg, "aerr": aerr, "res": rs,
                     "raw": raw, "action": name, "frame_ok": ok, "ecx_pc": after.get("ecx_pc"), "frame_num": after.get("frame_num"),
@@ -228,7 +237,8 @@ RESET = {"cmd": "reset", "k": -1, "idx": 0, "fr": 0, "ok": False, "chain": [], "
 
 
 def judge(s, events, tag):
-    d, cfg = s.data(set(), 0, 0, "MCV", "TraceScope")
+    d, _cfg = s.data(set(), 0, 0, "MCV", "TraceScope")
+    cfg = ""
     tf = d / f"{tag}.trace.ndjson"
     keep = ("cmd", "k", "idx", "fr", "ok", "chain", "locals", "lerr", "args", "aerr", "res", "raw")
     vlib.ndjson_write(tf, [{k: e[k] for k in keep} for e in events])
@@ -246,7 +256,7 @@ def judge(s, events, tag):
 
 def run_and_judge(s, scripts, tag):
     par = int(os.environ.get("VERIF_PAR", "6"))
-    vlib.cargo_build("c19")
+    driver()
     t0 = time.time()
     with ThreadPoolExecutor(max_workers=par) as ex:
         outs = list(ex.map(lambda a: run_session(s.p.exe, a[1], f"{tag}-{a[0]}"), list(enumerate(scripts))))
@@ -377,6 +387,8 @@ def run(rep, tier, replay):
            "register_located_values_compared": st.get("regvals", 0), "frame_commands_refused": acc["frame_cmds_failed"],
            "position_frame_pairs_covered": pairs_total, "distinct_observations": len(acc["distinct"]),
            "design_level_prediction_first_valid_die_wins": pred, "per_build": per, "samples": samples}
+    if os.environ.get("VERIF_C19_DUMP"):
+        Path(os.environ["VERIF_C19_DUMP"]).write_text(json.dumps(rep.records, indent=1, default=str))
     return rep.finish("model_checking", cov, assumptions=[
         "scope facts (blocks, ranges, variables, locations) are the binary's DWARF as printed by llvm-dwarfdump",
         "expected values are raw bytes at [rbp_k + N] / raw PTRACE_GETREGS registers read by the driver; frame k's rbp from the "
